@@ -606,6 +606,12 @@ func init() {
 				if f == "" {
 					f = c08AfterTestRoot()
 				}
+				for k := 0; k < 2 && f == ""; k++ {
+					f = c08Null(k == 1)
+				}
+				for k := 0; k < 8 && f == ""; k++ {
+					f = c08CloseErr(k%2 == 1, k/2)
+				}
 				for k := 0; k < 8 && f == ""; k++ {
 					f = c08InFlight(k&1 == 1, k&2 == 2, k>>2)
 				}
@@ -650,6 +656,20 @@ func init() {
 			ctx.Case(cs, "", "after-close", "")
 			if f := c08AfterTestRoot(); f != "" {
 				ctx.Fail("after_close_everything_is_inert", f, cs, nil)
+			}
+		}
+		for k := 0; k < 2; k++ {
+			cs := map[string]interface{}{"after_close": true, "null_reporter": true, "interval": k == 1}
+			ctx.Case(cs, "", "after-close", "")
+			if f := c08Null(k == 1); f != "" {
+				ctx.Fail("after_close_everything_is_inert", f, cs, nil)
+			}
+		}
+		for k := 0; k < 8; k++ {
+			cs := map[string]interface{}{"reporter_close_error": true, "cached": k%2 == 1, "error_kind": k / 2}
+			ctx.Case(cs, "", "reporter-close-error-is-returned", "")
+			if f := c08CloseErr(k%2 == 1, k/2); f != "" {
+				ctx.Fail("close_is_a_complete_idempotent_barrier", f, cs, nil)
 			}
 		}
 		// Close called while a periodic pass is stalled inside one scope's delivery, with recording in between
